@@ -389,9 +389,51 @@ def pairs_part(ctx, out):
     return len(pairs), len(pairs) - len(ops)
 
 
+def cascade_part(ctx, out):
+    """unions at the Cascade level: +, += and from_actions must leave every other Cascade (an empty one made before, an
+    empty one made afterwards, the operands) as it was"""
+    from earthkit.workflows import Cascade
+
+    n = 0
+    for op in ("iadd", "add", "from_actions"):
+        n += 1
+        rp = {"part": "cascade", "op": op}
+        a = fr.source_impl(0, (3, 2), (2,))
+        b = a.map(g)
+        # each case starts from a clean slate: a default graph object shared through the signature is emptied first, so
+        # that a case is charged only with what it does itself
+        dflt = getattr(Cascade.__init__, "__defaults__", None)
+        if dflt and hasattr(dflt[0], "sinks"):
+            dflt[0].sinks = []
+        try:
+            bystander = Cascade()
+            left = Cascade() if op != "from_actions" else None
+            right = Cascade.from_actions([b])
+            names_right = sorted(x.name for x in right._graph.nodes())
+            if op == "iadd":
+                left += right
+            elif op == "add":
+                _ = left + right
+            else:
+                _ = Cascade.from_actions([a, b])
+            fresh = Cascade()
+        except Exception as e:
+            out.append(({"monitor": "fluent_raised", "cause": f"Cascade {op}: {type(e).__name__}"}, f"{rp}: {e!r}"[:300], rp))
+            continue
+        for who, c in (("an empty Cascade made before the union", bystander), ("a Cascade made after the union", fresh)):
+            got = sorted(x.name for x in c._graph.nodes())
+            if got:
+                out.append(({"monitor": "operand_mutated", "cause": f"Cascade union ({op}): {who} is not empty any more"}, f"{rp}: {len(got)} nodes, e.g. {got[0][:40]}", rp))
+        if sorted(x.name for x in right._graph.nodes()) != names_right:
+            out.append(({"monitor": "operand_mutated", "cause": f"Cascade union ({op}): the right operand changed"}, f"{rp}", rp))
+    return n, n
+
+
 def run(ctx):
     out: list = []
+    nc, ntc = cascade_part(ctx, out)
     n1, nt1 = names_part(ctx, out)
+    n1, nt1 = n1 + nc, nt1 + ntc
     if not ctx.quick:
         n4, nt4 = pairs_part(ctx, out)
         n1, nt1 = n1 + n4, nt1 + nt4
@@ -421,6 +463,8 @@ def replay(ctx, data):
         names_part(ctx, out)
     elif data["part"] == "repro":
         reproducibility_part(ctx, out)
+    elif data["part"] == "cascade":
+        cascade_part(ctx, out)
     else:
         operands_part(ctx, out)
     return [common.Violation(sig, msg, rp) for sig, msg, rp in out]
